@@ -147,6 +147,15 @@ def run_selftest(prop: str, repo: str, res: Result) -> None:
                 meta = json.load(open(meta_path))
                 if meta.get("kept") and meta.get("property") == prop:
                     variants.append(dict(prop=prop, kind="F", name="seeded:" + name, diff=dp, expect=None))
+    # behaviour-preserving changes kept under /verif/refactors are must-stay-silent variants of *every* property
+    rdir = os.path.join(VERIF_ROOT, "refactors")
+    if os.path.isdir(rdir):
+        import json
+        for name in sorted(os.listdir(rdir)):
+            meta_path = os.path.join(rdir, name, "meta.json")
+            dp = os.path.join(rdir, name, "patch.diff")
+            if os.path.exists(meta_path) and os.path.exists(dp) and json.load(open(meta_path)).get("kept"):
+                variants.append(dict(prop=prop, kind="S", name="refactor:" + name, diff=dp))
     if not variants:
         res.note("self-validation: no variants registered for %s" % prop)
         return
